@@ -92,12 +92,23 @@ static ull hashOf(ull key)
 	}
 }
 static long g_throwBudget = -1;   // >= 0: the hash functor throws once this many further calls have been made
-struct HF { size_t operator()(const uint64_t& k) const { if (g_throwBudget == 0) throw std::runtime_error("hash"); if (g_throwBudget > 0) --g_throwBudget; ++g_hashCalls; return size_t(hashOf(k)); } };
+// key categories (all of them slow-hash for momo because the hash functor is custom): 8-byte and 4-byte arithmetic keys,
+// a 16-byte struct (sizeof(Item) > alignment: LimP4 minMemPoolIndex = 1), std::string (not trivially relocatable, heap owning)
+struct K16 { uint64_t id; uint64_t pad; bool operator==(const K16& o) const { return id == o.id; } };
+template<class K> struct KeyOps;
+template<> struct KeyOps<uint64_t> { static uint64_t mk(ull id) { return id; } static ull id(const uint64_t& k) { return k; } };
+template<> struct KeyOps<uint32_t> { static uint32_t mk(ull id) { return uint32_t(id); } static ull id(const uint32_t& k) { return k; } };
+template<> struct KeyOps<K16> { static K16 mk(ull id) { return K16{id, ~id}; } static ull id(const K16& k) { return k.id; } };
+template<> struct KeyOps<std::string> {
+	static std::string mk(ull id) { return "key-" + std::to_string(id) + std::string(size_t(id % 37), 'x'); }
+	static ull id(const std::string& k) { return std::stoull(k.substr(4)); } };
+template<class K> struct HFK { size_t operator()(const K& k) const { if (g_throwBudget == 0) throw std::runtime_error("hash"); if (g_throwBudget > 0) --g_throwBudget; ++g_hashCalls; return size_t(hashOf(KeyOps<K>::id(k))); } };
+typedef HFK<uint64_t> HF;
 
 // HashTraitsStd clamps the start bucket count to >= 8; this shadows the getter so that tables of 1, 2, 4 buckets exist too
-template<class HashBucket> struct TraitsL : HashTraitsStd<uint64_t, HF, std::equal_to<uint64_t>, HashBucket>
+template<class HashBucket, class Key = uint64_t> struct TraitsL : HashTraitsStd<Key, HFK<Key>, std::equal_to<Key>, HashBucket>
 {
-	typedef HashTraitsStd<uint64_t, HF, std::equal_to<uint64_t>, HashBucket> Base;
+	typedef HashTraitsStd<Key, HFK<Key>, std::equal_to<Key>, HashBucket> Base;
 	size_t logStart;
 	explicit TraitsL(size_t ls = 0) : Base(), logStart(ls) {}
 	size_t GetLogStartBucketCount() const noexcept { return logStart; }
@@ -109,25 +120,53 @@ template<class T, size_t M> struct Spec<internal::BucketOpen2N2<T, M, true>> {
 	static bool valid(B& b, size_t idx, size_t) { return b.mHashData.hashProbes[idx] != 255; }
 	static size_t index(B& b, typename B::Iterator it) { return size_t(std::addressof(*it) - &b.mItems); }
 	static bool reuses() { return true; }
+	static bool alwaysFull() { return false; }
 };
-template<class T, class P> struct Spec<internal::BucketLimP4<T, 4, P, true>> {
-	typedef internal::BucketLimP4<T, 4, P, true> B;
+template<class T, size_t M, class P> struct Spec<internal::BucketLimP4<T, M, P, true>> {
+	typedef internal::BucketLimP4<T, M, P, true> B;
 	static bool valid(B& b, size_t idx, size_t count) { size_t HC = B::hashCount; size_t slot = HC - 1 - idx; return slot < HC && slot >= count && b.mShortHashes[slot] >= 128 && b.mShortHashes[slot] <= 254; }
 	static size_t index(B& b, typename B::Iterator it) { return size_t(it - b.mPtrState.GetPointer()); }
 	static bool reuses() { return true; }
+	static bool alwaysFull() { return false; }
 };
 template<class T> struct Spec<internal::BucketOne<T, 1>> {
 	typedef internal::BucketOne<T, 1> B;
 	static bool valid(B&, size_t, size_t) { return true; }
 	static size_t index(B&, typename B::Iterator) { return 0; }
 	static bool reuses() { return false; }   // never needs the class test: 63 bits are stored
+	static bool alwaysFull() { return sizeof(typename B::HashState) < sizeof(size_t); }   // narrow state: always recompute
 };
+// NOTE: Spec<Bucket> exists only for the <.., useHashCodePartGetter = true> classes: if a configuration silently selected the
+// fast-hash variant (or BucketOpen8 instead of the Open2N2 fallback) runSet would not compile.  Explicit checks:
+template<class B> struct IsO2Part : std::false_type {};
+template<class T, size_t M> struct IsO2Part<internal::BucketOpen2N2<T, M, true>> : std::true_type { static const size_t maxCount = M; };
+template<class B> struct IsP4Part : std::false_type {};
+template<class T, size_t M, class P> struct IsP4Part<internal::BucketLimP4<T, M, P, true>> : std::true_type {};
+typedef HashSet<uint64_t, TraitsL<HashBucketOpen8>, MM>::Bucket CfgO8;
+typedef HashSet<uint64_t, TraitsL<HashBucketOpen2N2<>>, MM>::Bucket CfgO2;
+typedef HashSet<uint64_t, TraitsL<HashBucketLimP4<>>, MM>::Bucket CfgP4;
+typedef HashSet<uint64_t, TraitsL<HashBucketOne<>>, MM>::Bucket CfgOne;
+typedef HashSet<uint32_t, TraitsL<HashBucketOne<>, uint32_t>, MM>::Bucket CfgOne4;
+static_assert(IsO2Part<CfgO8>::value && IsO2Part<CfgO8>::maxCount == 3, "HashBucketOpen8 + slow-hash key must yield BucketOpen2N2<.,3,true>");
+static_assert(IsO2Part<CfgO2>::value && sizeof(CfgO2::ShortHash) == 1, "slow-hash key: 1-byte short hashes + hash probes");
+static_assert(IsP4Part<CfgP4>::value && CfgP4::useHashCodePartGetter, "slow-hash key, sizeof(Item) >= 4: LimP4 with stored hash parts");
+static_assert(sizeof(CfgOne::HashState) == 8 && sizeof(CfgOne4::HashState) == 4, "BucketOne state width follows the item alignment");
+static_assert(!IsO2Part<HashSet<uint64_t, HashTraits<uint64_t, HashBucketOpen2N2<>>>::Bucket>::value
+	&& !IsP4Part<HashSet<uint64_t, HashTraits<uint64_t, HashBucketLimP4<>>>::Bucket>::value,
+	"fast-hash (arithmetic) keys with the default functor select the variants WITHOUT stored hash parts: not the code under test");
+static_assert(IsP4Part<HashSet<std::string>::Bucket>::value, "default HashSet<std::string> = LimP4 with stored hash parts");
+static_assert(IsO2Part<HashSetOpen<std::string>::Bucket>::value, "HashSetOpen<std::string> = Open8 -> Open2N2<.,3,true>");
+#ifdef C12_EXPECT_HC
+static_assert(P4::hashCount == C12_EXPECT_HC && CfgP4::hashCount == C12_EXPECT_HC, "pointer-width build selects the expected hashCount");
+#endif
 
-template<class HashBucket> static void runSet(std::istringstream& is)
+template<class HashBucket, class Key = uint64_t> static void runSet(std::istringstream& is)
 {
-	typedef TraitsL<HashBucket> Traits;
-	typedef HashSet<uint64_t, Traits, MM> Set;
+	typedef TraitsL<HashBucket, Key> Traits;
+	typedef HashSet<Key, Traits, MM> Set;
 	typedef typename Set::Bucket Bucket;
+	typedef KeyOps<Key> KO;
+	ull opc[8] = {0, 0, 0, 0, 0, 0, 0, 0}, maxDisp = 0;
 	ull startLog; is >> g_mode >> g_param >> startLog;
 	Set set{Traits(size_t(startLog))};
 	std::vector<ull> keys; ull nextKey = 1;
@@ -149,7 +188,7 @@ template<class HashBucket> static void runSet(std::istringstream& is)
 	auto verify = [&]() {
 		// (1) every inserted key is found  (2) every stored element reconstructs exactly the known bits of its true hash
 		ull saved = g_hashCalls;
-		for (ull k : keys) if (!set.Find(k)) { ++notfound; if (first.empty()) first = "notfound:" + std::to_string(k); }
+		for (ull k : keys) if (!set.Find(KO::mk(k))) { ++notfound; if (first.empty()) first = "notfound:" + std::to_string(k); }
 		if (set.mBuckets != nullptr)
 		{
 			auto& bks = *set.mBuckets; size_t L = bks.GetLogCount(); if (L > maxL) maxL = L;
@@ -158,14 +197,15 @@ template<class HashBucket> static void runSet(std::istringstream& is)
 				Bucket& b = bks[i]; auto bounds = b.GetBounds(bks.GetBucketParams());
 				for (auto it = bounds.GetBegin(); it != bounds.GetEnd(); ++it)
 				{
-					ull h = hashOf(*it);
+					ull h = hashOf(KO::id(*it));
+					{ ull disp = (ull(i) - (h & (bks.GetCount() - 1))) & (bks.GetCount() - 1); if (disp > maxDisp) maxDisp = disp; }
 					for (size_t d : {size_t(1), size_t(2), size_t(3), size_t(7), size_t(8)})
 					{
 						size_t newL = L + d; if (newL > 57) continue;
 						bool called = false; Getter g{size_t(h), &called};
 						ull r = b.GetHashCodePart(g, it, i, L, newL);
 						ull expect = called ? h : (Spec<Bucket>::reuses() ? known(qof(L), h) : (h & ~(ull(1) << 63)));
-						if (r != expect) { ++bitsbad; if (first.empty()) first = "bits:key=" + std::to_string(*it) + ",L=" + std::to_string(L) + ",newL=" + std::to_string(newL); }
+						if (r != expect) { ++bitsbad; if (first.empty()) first = "bits:key=" + std::to_string(KO::id(*it)) + ",L=" + std::to_string(L) + ",newL=" + std::to_string(newL); }
 						if (!called && Spec<Bucket>::reuses() && qof(L) != qof(newL)) { ++bitsbad; if (first.empty()) first = "reuse-across-class"; }
 					}
 				}
@@ -183,15 +223,25 @@ template<class HashBucket> static void runSet(std::istringstream& is)
 			ull cnt = 0; ull invalid = snapshotInvalid(cnt);
 			size_t oldL = set.mBuckets ? set.mBuckets->GetLogCount() : 0; bool had = set.mBuckets != nullptr;
 			ull before = g_hashCalls; ull own = 0;
-			if (op == "i") { ull k = nextKey++; keys.push_back(k); set.Insert(k); own = 1; }
-			else if (op == "r") { Traits t; set.Reserve(t.CalcCapacity(size_t(1) << arg, Bucket::maxCount)); }
-			else if (op == "e" && !keys.empty()) { ull k = keys[arg % keys.size()]; keys.erase(keys.begin() + (arg % keys.size())); set.Remove(k); own = 1; }
+			bool rebuilt = false;
+			if (op == "i") { ull k = nextKey++; keys.push_back(k); set.Insert(KO::mk(k)); own = 1; ++opc[0]; }
+			else if (op == "r") { Traits t; set.Reserve(t.CalcCapacity(size_t(1) << arg, Bucket::maxCount)); ++opc[1]; }
+			else if (op == "e" && !keys.empty()) { ull k = keys[arg % keys.size()]; keys.erase(keys.begin() + (arg % keys.size())); set.Remove(KO::mk(k)); own = 1; ++opc[2]; }
+			else if (op == "c") { set.Clear(arg != 0); keys.clear(); rebuilt = true; ++opc[3]; }                 // Clear(shrink)
+			else if (op == "k") { Set tmp(set); set.Swap(tmp); rebuilt = true; ++opc[4]; }                         // copy construction + Swap
+			else if (op == "m") { Set tmp(std::move(set)); Set tmp2(std::move(tmp)); set.Swap(tmp2); rebuilt = true; ++opc[5]; }   // move construction + Swap
+			else if (op == "x" && !keys.empty())                                                                    // Extract + re-Insert of the extracted item
+			{
+				ull k = keys[arg % keys.size()];
+				auto ext = set.Extract(set.Find(KO::mk(k))); set.Insert(std::move(ext)); own = 2; ++opc[6];
+			}
 			ull calls = g_hashCalls - before - own;
 			size_t newL = set.mBuckets ? set.mBuckets->GetLogCount() : 0;
-			if (had && newL != oldL)
+			if (rebuilt) verify();
+			else if (had && newL != oldL)
 			{
 				++grow;
-				ull predicted = !Spec<Bucket>::reuses() ? 0 : (qof(oldL) != qof(newL) ? cnt : invalid);
+				ull predicted = Spec<Bucket>::alwaysFull() ? cnt : (!Spec<Bucket>::reuses() ? 0 : (qof(oldL) != qof(newL) ? cnt : invalid));
 				if (qof(oldL) != qof(newL)) ++crossed;
 				if (calls != predicted) { ++fullbad; if (first.empty()) first = "full:" + std::to_string(calls) + "!=" + std::to_string(predicted) + ",L=" + std::to_string(oldL) + "->" + std::to_string(newL); }
 				fullSum += calls; reusedSum += cnt - calls;
@@ -200,8 +250,9 @@ template<class HashBucket> static void runSet(std::istringstream& is)
 		}
 	}
 	verify();
-	printf("grow=%llu crossed=%llu notfound=%llu bitsbad=%llu fullbad=%llu full=%llu reused=%llu maxL=%llu count=%llu first=%s\n",
-		grow, crossed, notfound, bitsbad, fullbad, fullSum, reusedSum, maxL, ull(set.GetCount()), first.empty() ? "-" : first.c_str());
+	printf("grow=%llu crossed=%llu notfound=%llu bitsbad=%llu fullbad=%llu full=%llu reused=%llu maxL=%llu count=%llu maxdisp=%llu ops=%llu,%llu,%llu,%llu,%llu,%llu,%llu first=%s\n",
+		grow, crossed, notfound, bitsbad, fullbad, fullSum, reusedSum, maxL, ull(set.GetCount()), maxDisp,
+		opc[0], opc[1], opc[2], opc[3], opc[4], opc[5], opc[6], first.empty() ? "-" : first.c_str());
 }
 
 static void printP4(P4& b) { for (size_t i = 0; i < H; ++i) printf("%s%u", i ? " " : "", unsigned(b.mShortHashes[i])); }
@@ -339,11 +390,14 @@ int main()
 			g_throwBudget = -1;
 			Set set{Traits(size_t(L))};
 			bool bad = false;
-			for (ull k = 1; k < g_table.size() && !bad; ++k) { set.Insert(k); if (set.mBuckets->GetLogCount() != L) bad = true; }
+			bool natural = (budget == -2);   // tbl2 with budget -2: the LAST key is inserted at full capacity (pvAddGrow), no Reserve
+			size_t nfill = g_table.size() - (natural ? 1 : 0);
+			for (ull k = 1; k < nfill && !bad; ++k) { set.Insert(k); if (set.mBuckets->GetLogCount() != L) bad = true; }
 			if (bad) { puts("grew-early"); continue; }
 			for (ull k : rem) set.Remove(k);
 			Traits t; ull before = g_hashCalls;
-			g_throwBudget = long(budget); set.Reserve(t.CalcCapacity(size_t(1) << L1, 3)); g_throwBudget = -1;
+			if (natural) { if (set.GetCount() != set.GetCapacity()) { puts("not-at-capacity"); continue; } set.Insert(ull(nfill)); ++before; }
+			else { g_throwBudget = long(budget); set.Reserve(t.CalcCapacity(size_t(1) << L1, 3)); g_throwBudget = -1; }
 			size_t gens1 = 0; for (auto* bk = set.mBuckets; bk != nullptr; bk = bk->GetNextBuckets()) ++gens1;
 			ull finalL = L1;
 			if (L2 > 0) { set.Reserve(t.CalcCapacity(size_t(1) << L2, 3)); finalL = L2; }
@@ -408,11 +462,14 @@ int main()
 			g_throwBudget = -1;
 			Set set{Traits(size_t(L))};
 			bool bad = false;
-			for (ull k = 1; k < g_table.size() && !bad; ++k) { set.Insert(k); if (set.mBuckets->GetLogCount() != L) bad = true; }
+			bool natural = (budget == -2);
+			size_t nfill = g_table.size() - (natural ? 1 : 0);
+			for (ull k = 1; k < nfill && !bad; ++k) { set.Insert(k); if (set.mBuckets->GetLogCount() != L) bad = true; }
 			if (bad) { puts("grew-early"); continue; }
 			for (ull k : rem) set.Remove(k);
 			Traits t; ull before = g_hashCalls;
-			g_throwBudget = long(budget); set.Reserve(t.CalcCapacity(size_t(1) << L1, 4)); g_throwBudget = -1;
+			if (natural) { if (set.GetCount() != set.GetCapacity()) { puts("not-at-capacity"); continue; } set.Insert(ull(nfill)); ++before; }
+			else { g_throwBudget = long(budget); set.Reserve(t.CalcCapacity(size_t(1) << L1, 4)); g_throwBudget = -1; }
 			size_t gens1 = 0; for (auto* bk = set.mBuckets; bk != nullptr; bk = bk->GetNextBuckets()) ++gens1;
 			ull finalL = L1;
 			if (L2 > 0) { set.Reserve(t.CalcCapacity(size_t(1) << L2, 4)); finalL = L2; }
@@ -431,6 +488,15 @@ int main()
 			}
 			puts(out.c_str());
 		}
+		else if (cmd == "cfg")
+		{	// configuration facts checked by prop.py (the static_asserts above prove the class selection at compile time)
+			typedef HashSet<K16, TraitsL<HashBucketLimP4<>, K16>, MM>::Bucket P4K16;
+			typedef HashSet<uint32_t, TraitsL<HashBucketLimP4<>, uint32_t>, MM>::Bucket P4K4;
+			typedef HashSet<std::string, TraitsL<HashBucketLimP4<>, std::string>, MM>::Bucket P4S;
+			printf("hashCount=%llu min8=%llu min4=%llu min16=%llu minS=%llu sizeP4=%llu sizeO2=%llu sizeOne=%llu one4state=%llu o8max=%llu\n",
+				ull(CfgP4::hashCount), ull(CfgP4::minMemPoolIndex), ull(P4K4::minMemPoolIndex), ull(P4K16::minMemPoolIndex), ull(P4S::minMemPoolIndex),
+				ull(sizeof(CfgP4)), ull(sizeof(CfgO2)), ull(sizeof(CfgOne)), ull(sizeof(CfgOne4::HashState)), ull(IsO2Part<CfgO8>::maxCount));
+		}
 		else if (cmd == "set")
 		{
 			std::string kind; is >> kind;
@@ -438,6 +504,18 @@ int main()
 			else if (kind == "o2") runSet<HashBucketOpen2N2<>>(is);
 			else if (kind == "o8") runSet<HashBucketOpen8>(is);
 			else if (kind == "one") runSet<HashBucketOne<>>(is);
+			else if (kind == "p4m1") runSet<HashBucketLimP4<1>>(is);
+			else if (kind == "p4m2") runSet<HashBucketLimP4<2>>(is);
+			else if (kind == "p4m3") runSet<HashBucketLimP4<3>>(is);
+			else if (kind == "o2m1") runSet<HashBucketOpen2N2<1>>(is);
+			else if (kind == "o2m2") runSet<HashBucketOpen2N2<2>>(is);
+			else if (kind == "p4k4") runSet<HashBucketLimP4<>, uint32_t>(is);
+			else if (kind == "p4k16") runSet<HashBucketLimP4<>, K16>(is);
+			else if (kind == "p4s") runSet<HashBucketLimP4<>, std::string>(is);
+			else if (kind == "o8s") runSet<HashBucketOpen8, std::string>(is);
+			else if (kind == "o2k4") runSet<HashBucketOpen2N2<>, uint32_t>(is);
+			else if (kind == "onek4") runSet<HashBucketOne<>, uint32_t>(is);
+			else if (kind == "onek16") runSet<HashBucketOne<>, K16>(is);
 			else puts("?");
 		}
 		else puts("?");
